@@ -211,6 +211,12 @@ class Simplifier(pysmt.walkers.DagWalker):
             return self.manager.Bool(l == r)
         elif sl == sr:
             return self.manager.TRUE()
+        elif sl.is_constant() and sr.is_constant() and \
+             not sl.array_value_index_type().is_bv_type() and \
+             not sl.array_value_index_type().is_bool_type():
+            # Two distinct constant array values (they are kept in a
+            # canonical form) over an infinite index sort differ somewhere
+            return self.manager.FALSE()
         else:
             return self.manager.Equals(sl, sr)
 
